@@ -36,3 +36,25 @@ for kind in range(5):
         cut=['REMOVE_INTERNAL/while_2ebody'], cfgs=CFG_TREE, thorough_cfgs=ALL_CFGS, unwind=UNW[kind], unwindset_raw=SPEC_LOOPS, floor=20, timeout=1800, mem_gb=20, objbits=14, memsafe=False,
         under_contract=['db<uint64_t>::remove_internal (step at node kind %d)' % kind, 'impl_helpers::remove_or_choose_subtree', 'basic_inode::remove', 'shrinking ctor of the next smaller class', 'basic_inode_4::leave_last_child', 'key_prefix::prepend', 'db_leaf_deleter / db_inode_deleter', 'db statistics updates'],
         trusted=['definitional unfolding of the abstract map M', 'node_ptr as an abstract data type'])
+
+# ---- C10 release side: delete_subtree (recursive contract D, one job per function with the recursive calls replaced by D) and clear()
+for pol, dbn, unit, pfx in (('DB64', 'db', 'u_db', 'tree.db64'), ('OLC64', 'olc_db', 'u_olc', 'tree.olc64')):
+    POLICY = r'^unodb::detail::basic_art_policy<unsigned long, %s, unodb::%s, .*>::delete_subtree\(' % (SPAN, dbn)
+    hdr = 'node_header' if dbn == 'db' else 'olc_node_header'
+    ADTP = {'PTR*': r'^auto\* unodb::detail::basic_node_ptr<unodb::detail::%s>::ptr<' % hdr, 'TAG_PTR?': r'^unodb::detail::basic_node_ptr<unodb::detail::%s>::tag_ptr\(' % hdr}
+    cfgs = CFG_TREE if dbn == 'db' else (BASE, DEBUG)
+    for cls, n in CLSN.items():
+        job('%s.delsub.i%d' % (pfx, n), ['C10', 'C16'], unit, 'proofs/tree/delsub.c', defines=['PART=1', 'CLS=%d' % cls, 'POL=' + pol],
+            roots={'N_DELSUB': node_rx(n, db=dbn) + r'delete_subtree\([^()]*\)$'}, stubs={'DELSUB': POLICY}, cfgs=cfgs, thorough_cfgs=ALL_CFGS,
+            unwind={1: 7, 2: 19, 3: 50, 4: 258}[cls], unwindset_raw={'nv_load.0': 260, 'nv_load.1': 260, 'nv_wf_small.0': 18, 'nv_wf_48_full.0': 50, 'nv_wf_48_full.1': 260, 'nv_wf_256_full.0': 260, 'harness.0': 260, 'harness.1': 260},
+            floor=3, timeout=900, memsafe=False,
+            under_contract=['basic_inode_%d<%s>::delete_subtree (every child exactly once; recursive calls by contract D)' % (n, dbn)],
+            trusted=['induction over the height of a finite acyclic tree (composition of the per-function contracts into D)'])
+    job('%s.delsub.node' % pfx, ['C10', 'C16'], unit, 'proofs/tree/delsub.c', defines=['PART=2', 'POL=' + pol],
+        roots={'DELSUB': POLICY}, stubs=dict(ADTP, **{'N%d_DELSUB' % n: node_rx(n, db=dbn) + r'delete_subtree\([^()]*\)$' for n in (4, 16, 48, 256)}), cfgs=cfgs, thorough_cfgs=ALL_CFGS,
+        unwind=8, floor=5, timeout=600, memsafe=False, under_contract=['basic_art_policy<%s>::delete_subtree (children through the class routine, then the node itself, statistics)' % dbn],
+        trusted=['induction over the height of a finite acyclic tree'])
+    job('%s.clear' % pfx, ['C10', 'C01', 'C16'], unit, 'proofs/tree/delsub.c', defines=['PART=3', 'POL=' + pol],
+        roots={'CLEAR': (D64 if dbn == 'db' else r'^unodb::olc_db<unsigned long, %s >::' % SPAN) + r'clear\(\)'}, stubs={'DELSUB': POLICY, 'QSBR_INSTANCE?': r'^unodb::qsbr::instance\(\)', 'QS_SINGLE?': r'^unodb::qsbr_state::single_thread_mode\('}, cfgs=cfgs, thorough_cfgs=ALL_CFGS,
+        unwind=8, floor=3, timeout=600, memsafe=False, under_contract=['%s<uint64_t>::clear (whole tree through D, statistics zeroed)' % dbn],
+        trusted=['contract D of delete_subtree (proved per function in the delsub jobs + induction)'])
